@@ -545,88 +545,98 @@ func (e *engine) eval() error {
 			}
 		}
 	}
-	if e.deltaStore.EstimateFactCount() > 0 || (e.temporalDeltaStore != nil && e.temporalDeltaStore.EstimateFactCount() > 0) {
-		// Incremental rounds.
-		deltaRuleMap := makeDeltaRules(e.programInfo.Decls, e.predToRules)
-		// Flatten delta rules into a slice.
-		deltaRulePreds := make([]ast.PredicateSym, 0, len(deltaRuleMap))
-		for pred := range deltaRuleMap {
-			deltaRulePreds = append(deltaRulePreds, pred)
-		}
-		if e.options.deterministicOrder {
-			sort.Slice(deltaRulePreds, func(a, b int) bool {
-				return deltaRulePreds[a].Symbol < deltaRulePreds[b].Symbol
-			})
-		}
-		var deltaRules []ast.Clause
-		for _, pred := range deltaRulePreds {
-			deltaRules = append(deltaRules, deltaRuleMap[pred]...)
-		}
-		if err := e.mergeDelta(); err != nil {
-			return err
-		}
-		// Counts the facts that the incremental rounds created, including those that a merge
-		// predicate replaced or discarded (these never show in the size of the store).
-		createdInRounds := 0
-		for {
-			newDeltaStore := factstore.NewMultiIndexedArrayInMemoryStore()
-			var newTemporalDeltaStore factstore.TemporalFactStore
-			if e.temporalStore != nil {
-				newTemporalDeltaStore = factstore.NewTemporalStore()
+	// incrementalRounds runs the delta rules until no new fact is derived.
+	incrementalRounds := func() error {
+		if e.deltaStore.EstimateFactCount() > 0 || (e.temporalDeltaStore != nil && e.temporalDeltaStore.EstimateFactCount() > 0) {
+			// Incremental rounds.
+			deltaRuleMap := makeDeltaRules(e.programInfo.Decls, e.predToRules)
+			// Flatten delta rules into a slice.
+			deltaRulePreds := make([]ast.PredicateSym, 0, len(deltaRuleMap))
+			for pred := range deltaRuleMap {
+				deltaRulePreds = append(deltaRulePreds, pred)
 			}
-			var incrementalFactAdded bool
-			for _, deltaRule := range deltaRules {
-				if !predicateAllowList(deltaRule.Head.Predicate) {
-					continue
-				}
-				derivedFacts, err := e.oneStepEvalClause(deltaRule)
-				if err != nil {
-					return err
-				}
-				for _, tf := range derivedFacts {
-					if tf.Interval != nil && e.temporalStore != nil {
-						added, err := e.temporalStore.Add(tf.Atom, *tf.Interval)
-						if err != nil {
-							return err
-						}
-						if added {
-							if newTemporalDeltaStore != nil {
-								if _, err := newTemporalDeltaStore.Add(tf.Atom, *tf.Interval); err != nil {
-									return err
-								}
-								incrementalFactAdded = true
-							}
-						}
-					} else {
-						if !e.store.Contains(tf.Atom) && !e.deltaStore.Contains(tf.Atom) {
-							incrementalFactAdded = newDeltaStore.Add(tf.Atom) || incrementalFactAdded
-						}
-					}
-					if e.options.createdFactLimit > 0 && newDeltaStore.EstimateFactCount() > e.options.createdFactLimit {
-						return fmt.Errorf("fact size limit reached evaluating %q %d > %d", deltaRule.String(), newDeltaStore.EstimateFactCount(), e.options.createdFactLimit)
-					}
-				}
+			if e.options.deterministicOrder {
+				sort.Slice(deltaRulePreds, func(a, b int) bool {
+					return deltaRulePreds[a].Symbol < deltaRulePreds[b].Symbol
+				})
 			}
-			createdInRounds += newDeltaStore.EstimateFactCount()
-			if e.options.createdFactLimit > 0 && createdInRounds > e.options.createdFactLimit {
-				return fmt.Errorf("fact size limit reached %d > %d", createdInRounds, e.options.createdFactLimit)
+			var deltaRules []ast.Clause
+			for _, pred := range deltaRulePreds {
+				deltaRules = append(deltaRules, deltaRuleMap[pred]...)
 			}
-			// Install the new delta before merging, so that the delta is always
-			// contained in the store when the delta rules run in the next round.
-			e.deltaStore = newDeltaStore
-			e.temporalDeltaStore = newTemporalDeltaStore
 			if err := e.mergeDelta(); err != nil {
 				return err
 			}
-			if e.options.totalFactLimit > 0 && e.store.EstimateFactCount() > e.options.totalFactLimit {
-				return fmt.Errorf("fact size limit reached %d > %d", e.store.EstimateFactCount(), e.options.totalFactLimit)
-			}
-			if !incrementalFactAdded {
-				break
+			// Counts the facts that the incremental rounds created, including those that a merge
+			// predicate replaced or discarded (these never show in the size of the store).
+			createdInRounds := 0
+			for {
+				newDeltaStore := factstore.NewMultiIndexedArrayInMemoryStore()
+				var newTemporalDeltaStore factstore.TemporalFactStore
+				if e.temporalStore != nil {
+					newTemporalDeltaStore = factstore.NewTemporalStore()
+				}
+				var incrementalFactAdded bool
+				for _, deltaRule := range deltaRules {
+					if !predicateAllowList(deltaRule.Head.Predicate) {
+						continue
+					}
+					derivedFacts, err := e.oneStepEvalClause(deltaRule)
+					if err != nil {
+						return err
+					}
+					for _, tf := range derivedFacts {
+						if tf.Interval != nil && e.temporalStore != nil {
+							added, err := e.temporalStore.Add(tf.Atom, *tf.Interval)
+							if err != nil {
+								return err
+							}
+							if added {
+								if newTemporalDeltaStore != nil {
+									if _, err := newTemporalDeltaStore.Add(tf.Atom, *tf.Interval); err != nil {
+										return err
+									}
+									incrementalFactAdded = true
+								}
+							}
+						} else {
+							if !e.store.Contains(tf.Atom) && !e.deltaStore.Contains(tf.Atom) {
+								incrementalFactAdded = newDeltaStore.Add(tf.Atom) || incrementalFactAdded
+							}
+						}
+						if e.options.createdFactLimit > 0 && newDeltaStore.EstimateFactCount() > e.options.createdFactLimit {
+							return fmt.Errorf("fact size limit reached evaluating %q %d > %d", deltaRule.String(), newDeltaStore.EstimateFactCount(), e.options.createdFactLimit)
+						}
+					}
+				}
+				createdInRounds += newDeltaStore.EstimateFactCount()
+				if e.options.createdFactLimit > 0 && createdInRounds > e.options.createdFactLimit {
+					return fmt.Errorf("fact size limit reached %d > %d", createdInRounds, e.options.createdFactLimit)
+				}
+				// Install the new delta before merging, so that the delta is always
+				// contained in the store when the delta rules run in the next round.
+				e.deltaStore = newDeltaStore
+				e.temporalDeltaStore = newTemporalDeltaStore
+				if err := e.mergeDelta(); err != nil {
+					return err
+				}
+				if e.options.totalFactLimit > 0 && e.store.EstimateFactCount() > e.options.totalFactLimit {
+					return fmt.Errorf("fact size limit reached %d > %d", e.store.EstimateFactCount(), e.options.totalFactLimit)
+				}
+				if !incrementalFactAdded {
+					break
+				}
 			}
 		}
+		return nil
+	}
+	if err := incrementalRounds(); err != nil {
+		return err
 	}
 	// We reached the fixed point and can now apply "do-transforms".
+	// The facts they add are new to the other rules of this stratum (a rule for the same
+	// predicate may mention it), which see them in a further run of the incremental rounds.
+	emitted := factstore.NewMultiIndexedArrayInMemoryStore()
 	for _, clause := range e.programInfo.Rules {
 		if clause.Transform == nil || clause.Transform.IsLetTransform() {
 			continue
@@ -670,6 +680,9 @@ func (e *engine) eval() error {
 					e.options.recorder.DoEmit(clause, clause.Head, groupKey, groupFacts, a)
 				}
 				added := e.store.Add(a)
+				if added {
+					emitted.Add(a)
+				}
 				if e.options.totalFactLimit > 0 && e.store.EstimateFactCount() > e.options.totalFactLimit {
 					limitErr = fmt.Errorf("fact size limit reached evaluating %q %d > %d", clause.Head.String(), e.store.EstimateFactCount(), e.options.totalFactLimit)
 				}
@@ -683,6 +696,13 @@ func (e *engine) eval() error {
 		if limitErr != nil {
 			return limitErr
 		}
+	}
+	if emitted.EstimateFactCount() > 0 {
+		e.deltaStore = emitted
+		if e.temporalStore != nil {
+			e.temporalDeltaStore = factstore.NewTemporalStore()
+		}
+		return incrementalRounds()
 	}
 	return nil
 }
